@@ -26,7 +26,7 @@ EXPLANATION = ('theorems C06_* (coq/props/C06.v) hold for every rectangular tabl
 TRUSTED = ['modelled, not verified: coq/model/M_filter.v + M_table.v (tied by the correspondence only)',
            'regexes restricted to literal patterns (re.escape): pattern.search = substring test',
            'kwargs_support / callables restricted to the named set of M_table.rowfn']
-ASSUMPTIONS = ['cells are None, ints, half-integer floats, NaN objects, ASCII strings',
+ASSUMPTIONS = ['cells are None, ints, half-integer floats, NaN objects, ASCII strings; no +-inf cells or conditions: pyg_base.is_nan treats inf as NaN (inc(x=nan) also selects inf rows, inc(x=inf) selects NaN rows) and the property text does not decide that case',
                'a conjunction spelled across keyword filters and positional dicts is the flattened list kw ++ dict1 ++ dict2 (model: QFilters + dict_of); when one column gets two '
                'different conditions in one call the model follows the code (the later group wins) but the oracle only claims that inc/exc still partition the rows in order',
                'a call has either ONE callable or keyword/dict filters, as in the property text ("any single predicate ..., or any conjunction of column conditions"): '
@@ -62,7 +62,7 @@ def impl_setup():
 
 def cond_py(c, conv):
     if 'v' in c: return conv(c['v'])
-    if 'l' in c: return [conv(x) for x in c['l']]
+    if 'l' in c: return tuple(conv(x) for x in c['l']) if c.get('as') == 'tuple' else [conv(x) for x in c['l']]     # as_list(tuple) = list
     return re.compile(re.escape(c['re']))
 
 def call_with(method, q, conv):
@@ -200,7 +200,8 @@ def impl(case):
     return {'status': status, 'obs': obs, 'viol': viol}
 
 # ------------------------------------------------------------------ generation
-CELLS = [None, None, 0, 1, {'f': 2}, 2, {'f': 5}, {'nan': 0}, {'nan': 1}, {'s': 'a'}, {'s': 'ab'}, {'s': 'b'}, {'s': ''}]
+CELLS = [None, None, 0, 1, {'f': 2}, 2, {'f': 5}, {'nan': 0}, {'nan': 1}, {'s': 'a'}, {'s': 'ab'}, {'s': 'b'}, {'s': ''},
+         -1, {'f': -2}, {'f': 0}, 10 ** 12, {'s': 'a b'}, {'s': 'None'}, {'s': 'nan'}, {'s': '1'}]
 FRESH_NAN = {'nan': 9}
 
 def gen_table(rng):
@@ -218,7 +219,7 @@ def gen_cond(rng, pool, colvals):
     if r < 0.85:
         l = [rng.choice(src + [FRESH_NAN]) for _ in range(rng.choice([0, 1, 2, 2, 3]))]
         if rng.random() < 0.15: l = list({json.dumps(x): x for x in colvals}.values())      # match everything
-        return {'l': l}
+        return {'l': l, 'as': 'tuple'} if rng.random() < 0.3 else {'l': l}
     return {'re': rng.choice(['a', 'b', 'ab', '', 'ba', 'x'])}
 
 def gen_cases(rng, tier):
@@ -262,6 +263,14 @@ def gen_cases(rng, tier):
                 if ok: q = {'filters': fs, 'form': 'split', 'groups': g}
                 else: q = {'filters': fs[:len(ks)], 'form': q['form']}
         cases.append({'kvs': kvs, 'q': q, 'fkey': rng.choice(names + (['z'] if rng.random() < 0.03 else [])), 'kind': 'random'})
+    # sizes far beyond 0-6 rows: 101-250 rows, one or two conditions selecting a proper subset / nothing / everything
+    for _ in range(12 if tier == 'quick' else 200):
+        n = rng.randrange(101, 251); ka, kb = rng.choice(NAME_PAIRS)
+        kvs = [[ka, {'L': [rng.choice([i % 7, None, {'nan': 0}, {'f': 2 * (i % 5)}, {'s': 'ab' if i % 3 else 'b'}]) for i in range(n)]}], [kb, {'L': [i % 3 for i in range(n)]}]]
+        c1 = rng.choice([{'v': 3}, {'v': None}, {'v': {'nan': 9}}, {'l': [0, 1, 2]}, {'l': [], 'as': 'tuple'}, {'re': 'a'}, {'l': [0, 1, 2, 3, 4, 5, 6, None, {'nan': 0}, {'s': 'ab'}, {'s': 'b'}]}])
+        fs = [[ka, c1]] + ([[kb, {'v': rng.choice([0, 1, 5])}]] if rng.random() < 0.5 else [])
+        q = rng.choice([{'filters': fs, 'form': 'kw'}, {'filters': fs, 'form': 'split', 'groups': [len(fs) - 1, 1, None]}, {'f': ['eq', ka, kb]}, {'f': ['isnone', ka]}])
+        cases.append({'kvs': kvs, 'q': q, 'fkey': kb, 'kind': 'big'})
     # small scope: every table of <= 3 rows over {None, 1, NaN0} (one filtered column + an index column) x every single condition
     vals = [None, 1, {'nan': 0}]
     conds = [{'v': v} for v in vals + [{'f': 2}, FRESH_NAN, 2]] + [{'l': list(l)} for k in range(3) for l in itertools.product(vals + [FRESH_NAN], repeat=k)] + [{'re': ''}]
